@@ -78,15 +78,18 @@ def _mk(shape, G, bpms, clean, body, budget_s, wraw=None):
 
 
 def ob_roundtrip(shape, G, bpms, clean, wraw=None, budget_s=120):
-    """for every tick q outside every warp's [start,end): beat_at(time_at(q)) == q"""
+    """for every tick q outside every warp's [start,end) and every tag (none, or any of the seven EventTag members, whether or
+    not q carries an event of that kind): beat_at(time_at(q, tag)) == q"""
     import z3
 
     def body(symx, mods, E, Beat, V, eng):
         kq = symx.fresh_int("kq", -G, 3 * G)
         symx.CTL.assume(z3.Not(tc.oracle_in_warp(V, kq)))
         q = Beat(symx.SymInt(kq), 48)
-        back = eng.beat_at(eng.time_at(q))
-        return _eq(symx, back, tc.tick(kq)), ("roundtrip",)
+        tags = [None] + list(E.EventTag)
+        ti = symx.choose("tg", len(tags))
+        back = eng.beat_at(eng.time_at(q) if tags[ti] is None else eng.time_at(q, tags[ti]))
+        return _eq(symx, back, tc.tick(kq)), ("roundtrip", ti)
     return _mk(shape, G, bpms, clean, body, budget_s, wraw)
 
 
@@ -310,8 +313,10 @@ def replay(data):
     tick = Fraction(1, 48)
     if func == "ob_roundtrip":
         q = Beat(int(g("kq")), 48)
-        back = eng.beat_at(eng.time_at(q))
-        return back != q, f"beat_at(time_at({q!r})) = {back!r}; timing={c}"
+        tags = [None] + list(EventTag)
+        tg = tags[int(g("tg"))]
+        back = eng.beat_at(eng.time_at(q) if tg is None else eng.time_at(q, tg))
+        return back != q, f"beat_at(time_at({q!r}, {tg})) = {back!r}; timing={c}"
     if func == "ob_in_pause":
         t = float(g("t")); back = eng.beat_at(t)
         pauses = [p for p, _ in c["stops"]] + [p for p, _ in c["delays"]]
